@@ -137,3 +137,46 @@ for sid, (prop, what, needs, family) in sorted(DESC2.items()):
     json.dump(meta, open(os.path.join(d, "meta.json"), "w"), indent=1)
     n2 += 1
 print("second-wave entries:", n2)
+
+# ---- third wave (agents were told the families already used by waves 1 and 2)
+DESC3 = {
+ "W3-C07-A": ("C07", "raft.go Step: a lower-term MsgSnap whose index is above the commit index breaks out of the lower-term case and reaches the state's step function", "a candidate or pre-candidate at term T receiving a delayed MsgSnap of term T' < T: becomeFollower(T') moves the term back and clears the vote", "lower-term-msgsnap"),
+ "W3-C07-B": ("C07", "rawnode.go Bootstrap: the 'non-empty Storage' refusal is evaluated after the state reset (becomeFollower(1, None), commit rewritten)", "an application that goes through the StartNode/Bootstrap path on every start; Bootstrap returns its error but term, vote and commit are already gone", "bootstrap-after-reset"),
+ "W3-C10-A": ("C10", "confchange.Changer.apply: a change with NodeId 0 ends the loop (break) instead of being skipped (continue)", "a ConfChangeV2 that carries a zero-id change before further changes", "zero-id-break"),
+ "W3-C10-B": ("C10", "raftpb ConfChangeV2.EnterJoint: a multi-change batch that only adds/removes learners with the automatic transition is classified as simple", "a batch of >= 2 changes one of which demotes a voter to learner: the simple path refuses or panics ('more than one voter changed')", "enterjoint-learner-batch"),
+ "W3-C11-A": ("C11", "raft.go switchToConfig (leader) rebuilds the readOnly bookkeeping keeping the queued requests but not confirmedReads, so read positions restart at 1 within a leadership term", "a read confirmed earlier in the term with a heartbeat response still in flight, a configuration change applied by the leader, a partition with a competing election, a new read, then the delayed response", "readonly-rebuilt"),
+ "W3-C11-B": ("C11", "read_only.go maybeAdvance slides the still-unconfirmed requests to the front of the array that the returned (confirmed) slice aliases", "two or more reads outstanding and a quorum that covers only the earlier position(s): the unconfirmed requests are answered, the confirmed ones lost", "readonly-alias"),
+ "W3-C12-A": ("C12", "tracker.QuorumActive skips voters that are staged in LearnersNext", "a joint configuration that demotes voters: the outgoing majority is judged without them", "quorumactive-learnersnext"),
+ "W3-C12-B": ("C12", "read_only.go recvAck: ro.acks[from] = pos instead of max(ro.acks[from], pos)", "two reads outstanding, the heartbeat response for the older one delivered after (or duplicated after) the newer one from a voter whose ack is needed", "ack-assign"),
+ "W3-C13-A": ("C13", "tracker.Config.Clone no longer copies empty maps (returns the same map for an empty set)", "a change applied to a configuration with an empty half/learner set, the input inspected afterwards", "clone-empty-alias"),
+ "W3-C13-B": ("C13", "confchange.Changer.apply: a zero NodeId returns nil (all remaining changes dropped, no error)", "a batch with a zero id before other changes", "zero-id-return"),
+ "W3-C16-A": ("C16", "raft.go stepLeader MsgUnreachable: the guard becomes != StateProbe, so a follower in StateSnapshot is moved to probing", "ReportUnreachable for a follower while the snapshot sent to it is still pending: MsgApp follows", "unreachable-leaves-snapshot"),
+ "W3-C16-B": ("C16", "tracker.Progress.SentEntries adds to Inflights before Next advances (keyed by the first index of the batch)", "replication with multi-entry appends: the window is released early by the acknowledgement of the first entry", "inflights-first-index"),
+ "W3-C17-A": ("C17", "raft.go MsgCheckQuorum: the loop that clears RecentActive skips learners", "a learner that was active before, is promoted and then goes silent: its stale RecentActive counts towards the next quorum check", "checkquorum-skips-learners"),
+ "W3-C17-B": ("C17", "raft.go: a MsgPreVote for the receiver's own term (a 'future pre-vote') is recorded as a real vote", "a delayed MsgPreVote at term T-1 arriving at a node that is at term T with no vote cast", "prevote-recorded"),
+ "W3-C19-A": ("C19", "raft.go campaign: vote requests are created in map iteration order", "a configuration with >= 3 peers: the order of Ready.Messages differs from run to run", "campaign-map-order"),
+ "W3-C19-B": ("C19", "raft.go switchToConfig ranges over the progress map when probing the new peers", "a configuration change on a leader with >= 3 peers", "switchtoconfig-map-order"),
+}
+SRC3 = "/tmp/seedout3"
+n3 = 0
+for sid, (prop, what, needs, family) in sorted(DESC3.items()):
+    _, c, v = sid.split("-")
+    src = os.path.join(SRC3, c)
+    d = os.path.join(out, sid)
+    if os.path.exists(os.path.join(src, v + ".patch.diff")):
+        os.makedirs(d, exist_ok=True)
+        shutil.copy(os.path.join(src, v + ".patch.diff"), os.path.join(d, "patch.diff"))
+        shutil.copy(os.path.join(src, v + "_demo_test.go"), os.path.join(d, "demo_test.go"))
+    elif not os.path.exists(d):
+        print("missing source for", sid); continue
+    pkgdir = "confchange" if c == "C13" else "."
+    meta = {
+        "id": sid, "breaks_property": prop, "family": family, "change": what, "needs_to_manifest": needs,
+        "demonstration": {"file": "demo_test.go", "package_dir": pkgdir, "run": "GOFLAGS=-mod=mod GOPROXY=off go test -vet=off -count=1 -run ZZSeed ./" + pkgdir},
+        "confirmed": "scripts/confirm_seed.sh seeded/%s/patch.diff seeded/%s/demo_test.go %s ZZSeed -> demo passes without the patch, complete unedited suite passes with it (rafttest's wall-clock tests re-run alone when the machine was loaded), demo fails with it" % (sid, sid, pkgdir),
+        "origin": "third wave: an independent sub-agent given only the property text, a scratch worktree and the families of changes already used",
+        "detection": results.get(sid, {}),
+    }
+    json.dump(meta, open(os.path.join(d, "meta.json"), "w"), indent=1)
+    n3 += 1
+print("third-wave entries:", n3)
